@@ -39,6 +39,13 @@ def findChar (ch : Char) : Text → Option Nat
 /-- `trim_end_matches(ch)`. -/
 def trimEndChar (ch : Char) (t : Text) : Text := (t.reverse.dropWhile (· == ch)).reverse
 
+/-- `str::replace("\r\n", "\n")`: every CR that is directly followed by LF is dropped (matches are non-overlapping and
+a CRLF never overlaps another). -/
+def replaceCrLf : Text → Text
+  | [] => []
+  | '\r' :: '\n' :: rest => '\n' :: replaceCrLf rest
+  | c :: rest => c :: replaceCrLf rest
+
 /-- `trim_start_matches(char::is_whitespace)` / `trim_start`. -/
 def trimStart (t : Text) : Text := t.dropWhile isWs
 
